@@ -7,7 +7,9 @@ fn c17_strict_vs_permissive() {
     // bad jump targets: non-JUMPDEST, out of range, in push data, symbolic — via JUMP and via JUMPI
     let tail = [0x60u8, 0x01, 0x60, 0x05, 0x55, 0x00];
     let mut progs: Vec<(String, Vec<u8>)> = vec![];
-    for (tname, target) in [("out-of-range", vec![0x60u8, 0xff]), ("non-jumpdest", vec![0x60, 0x01]), ("symbolic", vec![0x36])] {
+    let big = |n: usize, top: u8| { let mut v = vec![0x5f + n as u8, top]; v.extend(std::iter::repeat(0u8).take(n - 1)); v };
+    for (tname, target) in [("out-of-range", vec![0x60u8, 0xff]), ("non-jumpdest", vec![0x60, 0x01]), ("symbolic", vec![0x36]),
+                            ("out-of-range 2^32", big(5, 1)), ("out-of-range 2^64", big(9, 1)), ("out-of-range 2^255", big(32, 0x80)), ("out-of-range 2^256-1", { let mut v = vec![0x7f]; v.extend([0xffu8; 32]); v })] {
         // JUMPI: PUSH1 1 <target> JUMPI tail
         let mut p = vec![0x60, 0x01];
         p.extend(&target);
@@ -43,7 +45,8 @@ fn c17_strict_vs_permissive() {
         }
     }
     // other execution errors still fail in permissive mode: stack underflow (POP on empty stack)
-    for (name, code) in [("stack underflow", vec![0x50u8, 0x00])] {
+    for (name, code) in [("stack underflow", vec![0x50u8, 0x00]), ("JUMP on an empty stack", vec![0x56, 0x00]), ("JUMPI with one operand", vec![0x60, 0x04, 0x57, 0x00, 0x5b, 0x00]),
+                         ("JUMPI on an empty stack behind a fork", vec![0x36, 0x60, 0x05, 0x57, 0x00, 0x5b, 0x57, 0x00])] {
         if let Out::Ok(_) = analyze(&code, true) { witness("C17", "ctl.permissive_still_fails_on_other_errors", format!("{name}: {code:02x?}"), "Ok".into(), "Err".into()); }
     }
     println!("CASES c17_programs {n}");
